@@ -347,6 +347,8 @@ func c15Pools() [][]H {
 		}
 	}
 	rec(nil)
+	// answers of GetVerified that name a transaction twice (unusual, but the proposal is "the pool's list, in order")
+	out = append(out, []H{201, 201}, []H{201, 202, 201})
 	return out
 }
 
@@ -584,7 +586,7 @@ func init() {
 			}
 		}
 		rc := finishEnum("C15", tier, start, props, drives-empty, fails, samples,
-			"full grid: increment {1ns,1us,1ms,1s,7ms,13s,2^20ns} x previous timestamp {0,1,inc-1,inc,7inc-1,7inc,7inc+1} (+0 and +1.7e18 base) x clock = previous + {-2inc,-1,0,+1,inc-1,inc,inc+1,3.5inc} x every ordered selection of <=3 of 3 pool transactions (16 lists) x height {1,N,2^32-1} x view {0,1,2} (N=4, reached through real ChangeView quorums) x N {1,4} x anti-MEV off/on x dynamic block time off/on x {proposal forced in Start, proposal after Reset+OnTimeout} x (views>0) {no earlier proposal, a view-0 proposal stamped ahead of the local clock received and abandoned}; each case is one real Start/OnReceive/Reset/OnTimeout drive; evaluations = proposals broadcast and checked (a single-node drive proposes for two heights), distinct_nontrivial = distinct grid points whose drive produced at least one proposal",
+			"full grid: increment {1ns,1us,1ms,1s,7ms,13s,2^20ns} x previous timestamp {0,1,inc-1,inc,7inc-1,7inc,7inc+1} (+0 and +1.7e18 base) x clock = previous + {-2inc,-1,0,+1,inc-1,inc,inc+1,3.5inc} x every ordered selection of <=3 of 3 pool transactions (16 lists) and two lists naming a transaction twice x height {1,N,2^32-1} x view {0,1,2} (N=4, reached through real ChangeView quorums) x N {1,4} x anti-MEV off/on x dynamic block time off/on x {proposal forced in Start, proposal after Reset+OnTimeout} x (views>0) {no earlier proposal, a view-0 proposal stamped ahead of the local clock received and abandoned}; each case is one real Start/OnReceive/Reset/OnTimeout drive; evaluations = proposals broadcast and checked (a single-node drive proposes for two heights), distinct_nontrivial = distinct grid points whose drive produced at least one proposal",
 			true, []string{"the same grid in both tiers (it is small enough to run in full)", "reading of 'whenever that is larger': the truncated clock must be used whenever it exceeds previous timestamp + increment; otherwise only 'strictly greater than the previous timestamp' is required"})
 		if bad {
 			return 2
